@@ -2,6 +2,7 @@ import Lean.Data.Json
 import GristModel
 import Driver.Treeview
 import Driver.Engine
+import Driver.Refs
 import Driver.FormulaRename
 import Driver.PredRename
 import Driver.Codebuilder
@@ -54,6 +55,7 @@ def handleStateless (m : String) (j : Json) : Except String Json :=
   | "codebuilder" => handleCodebuilder j
   | "predrename" => Grist.Driver.PredRename.handlePredRename j
   | "formularename" => handleFormulaRename j
+  | "refs" => handleRefs j
   | _ => throw s!"unknown model {m}"
 
 structure AllState where
